@@ -22,8 +22,8 @@ func init() {
 			"schedule policies random / PCT / biased / run-to-block with a scheduling point inside every output write and between every write and hand-off; monitor per write call: exactly one JSON event + newline, " +
 			"no event written twice, every UserAction preceded by the UserLogin with the same subjects.pid; afterwards the file content (O_APPEND / no-O_APPEND semantics of the simulated file) keeps the earlier events and consists of whole JSON lines; thorough tier additionally under the race detector; " +
 			"non-trivial = both pipelines wrote and at least one preemption happened; distinct = distinct (history hash, schedule hash)",
-		Quick: 3000, Thorough: 150000,
-		Race: true, RaceQuick: 160, RaceThorough: 8000,
+		Quick: 8000, Thorough: 250000,
+		Race: true, RaceQuick: 96, RaceThorough: 8000,
 	})
 }
 
